@@ -1249,7 +1249,8 @@ func c18Flow(c *lab.Ctx) {
 		"the stall watchdog, progress only after an unneeded 1-byte connection WINDOW_UPDATE (or, failing that, an empty SETTINGS frame); any other watchdog firing is inconclusive. The ledger is " +
 		"updated before every WINDOW_UPDATE is written. distinct = (direction, window class, frame size, #streams class, body classes, " +
 		"stream mode, settings changes, negative window seen). One stream in eight also carries a header value of up to 60000 bytes, which MOSN " +
-		"must split over CONTINUATION frames and the peer's x/net framer must read back unchanged.")
+		"must split over CONTINUATION frames and the peer's x/net framer must read back unchanged; a sweep of ~900 single-stream cases walks the (Huffman-coded) header value's encoded length " +
+		"byte by byte across the sizes at which the encoded block is exactly one and two full frames.")
 	n := c.Pick(500, 3000)
 	maxBody := c.Pick(1<<20, 4<<20)
 	replay := c.ReplayCase()
@@ -1260,7 +1261,35 @@ func c18Flow(c *lab.Ctx) {
 	confirmed := 0 // stall verdicts confirmed 3 of 3 in this run
 	sem := make(chan struct{}, workers)
 	var wg sync.WaitGroup
-	for i := 0; i < n; i++ {
+	// header-block boundary sweep: one stream with a padding header value whose length walks across the sizes at which the encoded
+	// block is exactly one / two full frames (16384, 32768 bytes; the fixed part of the block is < 200 bytes)
+	type sweepCase struct {
+		dir string
+		pad int
+	}
+	var sweep []sweepCase
+	// MOSN's encoder Huffman-codes the value, so the walk is over encoded lengths: for every encoded length from 300 bytes below the
+	// boundary to 8 above it, the first value length that produces it (the rest of the block is < 300 bytes)
+	for _, dir := range []string{"response", "request"} {
+		for _, centre := range []int{16384, 32768} {
+			lastLen := uint64(0)
+			for pad := centre; pad < 3*centre; pad++ {
+				el := xhpack.HuffmanEncodeLength(c18PadValue(7, pad))
+				if el < uint64(centre-300) || el == lastLen {
+					continue
+				}
+				if el > uint64(centre+8) {
+					break
+				}
+				lastLen = el
+				if !c.Thorough() && centre == 32768 && el%2 == 1 {
+					continue // quick: every second encoded length around the second boundary
+				}
+				sweep = append(sweep, sweepCase{dir, pad})
+			}
+		}
+	}
+	for i := 0; i < n+len(sweep); i++ {
 		if i%c.NBatch != c.Batch || (replay >= 0 && replay != i+1) {
 			continue
 		}
@@ -1285,7 +1314,13 @@ func c18Flow(c *lab.Ctx) {
 			cs.UseStream = rng.Chance(1, 4)
 			cs.Stagger = rng.Chance(1, 3)
 			cs.Script = "random"
-			if i%25 == 10 || i%25 == 23 { // one of each direction per 25 cases
+			if i >= n {
+				sw := sweep[i-n]
+				cs.Dir, cs.W0, cs.MaxFrame = sw.dir, c18MaxWindow, 16384
+				cs.Sizes, cs.Salts, cs.Pads = []int{10}, []byte{7}, []int{sw.pad}
+				cs.UseStream, cs.Stagger = false, false
+				cs.Script = "header-sweep"
+			} else if i%25 == 10 || i%25 == 23 { // one of each direction per 25 cases
 				cs.Script = "header-interleave"
 				cs.W0 = c18MaxWindow
 				// A client splits its header block at the peer's MAX_FRAME_SIZE, so that has to be small to see CONTINUATION
@@ -1310,7 +1345,7 @@ func c18Flow(c *lab.Ctx) {
 					}
 				}
 			}
-			if i%25 == 6 || i%25 == 19 { // one of each direction per 25 cases
+			if i < n && (i%25 == 6 || i%25 == 19) { // one of each direction per 25 cases
 				cs.Script = "settings-release"
 				cs.W0 = int64(rng.PickInt(0, 1, 100, 1000))
 				cs.Stagger = false
